@@ -10,7 +10,7 @@ from typing import Any
 
 from symex.case import Case
 from symex.explorer import PathPruned
-from entity_query_language import an, entity, let, symbolic_mode, rule_mode, symbol, infer
+from entity_query_language import an, entity, let, symbolic_mode, rule_mode, symbol, infer, predicate
 from entity_query_language.symbolic import Variable
 
 ASSUMPTIONS = [
@@ -19,8 +19,8 @@ ASSUMPTIONS = [
     "hierarchy: A (dataclass) > B (decorated dataclass) > E (decorated); A > C (undecorated, hand-written __init__); "
     "D unrelated (hand-written __init__); G(B, C) decorated, the bottom of a diamond",
 ]
-BOUNDS = {"quick": dict(history_length=4, declared_variables=2, ops=21, classes="A>B>E, A>C, D, diamond G(B,C); variables over A, B, D and the undecorated C"),
-          "thorough": dict(history_length=5, declared_variables=2, ops=21)}
+BOUNDS = {"quick": dict(history_length=4, declared_variables=2, ops=22, classes="A>B>E, A>C, D, diamond G(B,C); variables over A, B, D and the undecorated C"),
+          "thorough": dict(history_length=5, declared_variables=2, ops=22)}
 LIMITS = {"quick": dict(max_paths=400000, max_wall=500), "thorough": dict(max_paths=5000000, max_wall=3300)}
 FIDELITY = {"quick": "first", "thorough": "first"}
 WALL_BUDGET = {"quick": 560, "thorough": 3500}
@@ -80,8 +80,13 @@ class Src:
     k: Any = 0
 
 
+@predicate
+def positive(k):
+    return k > 0
+
+
 CLASSES = {"A": A, "B": B, "C": C, "D": D, "E": E, "G": G}
-OPS = ["C_A_kw", "C_A_pos", "C_A_def", "C_B", "C_C", "C_D", "C_E", "C_G", "SYM_A", "SYM_B", "SYM_D", "SYM_EXC", "INFER_A", "INFER_B", "CLEAR",
+OPS = ["C_A_kw", "C_A_pos", "C_A_def", "C_B", "C_C", "C_D", "C_E", "C_G", "SYM_A", "SYM_B", "SYM_D", "SYM_EXC", "INFER_A", "INFER_B", "PREDQ", "CLEAR",
        "DECL_A", "DECL_B", "DECL_C", "DECL_D", "QUERY0", "QUERY1"]
 
 
@@ -162,6 +167,15 @@ class C14(Case):
                         bad.append([t, op, "rule produced", [type(m).__name__ for m in made]])
                         break
                     live.extend(made)
+                elif op == "PREDQ":
+                    # an unrelated query that calls a @predicate FUNCTION over an explicit domain (the engine keeps per-function
+                    # entries next to the per-class registries)
+                    with symbolic_mode():
+                        sv = let(Src, domain=srcs)
+                        pq = an(entity(sv, positive(sv.k)))
+                    if len(list(pq.evaluate())) != 2:
+                        bad.append([t, op, "predicate query returned a wrong number of rows"])
+                        break
                 elif op == "CLEAR":
                     for c in Variable._cache_.values():
                         c.clear()
